@@ -1182,3 +1182,26 @@ def gen_connect_chain(rng):
     order = list(range(n))
     rng.shuffle(order)
     return {"comps": permute(comps, order), "end": unit * rng.choice([4, 6, 9]), "samename": True}
+
+
+def gen_shared_and_own(rng):
+    """one output read by two consumers behind ONE shared pass-through adapter (branching at the adapter) AND by further
+    consumers behind their own chains, one of them a time-interpolation / integration adapter (which must not branch):
+    a legal wiring whichever link is created first"""
+    unit = rng.choice(UNITS)
+    sp = unit * rng.choice([1, 1, 2])
+    comps = [{"kind": "T", "start": 0, "steps": [sp], "initpull": False, "nout": 1, "inputs": [], "shared_out": [0]}]
+    for _ in range(2):
+        comps.append({"kind": "T", "start": 0, "steps": [sp * rng.choice([1, 2, 3])], "initpull": rng.random() < 0.3,
+                      "nout": 0, "inputs": [{"src": [0, 0], "chain": [["pass"]] if rng.random() < 0.3 else []}]})
+    for k in range(rng.choice([1, 1, 2])):
+        ch = [["buf", rng.choice(["next", "prev", "linear", "step", "avg", "sum"])]] if k == 0 else \
+            rng.choice([[], [["pass"]], [["fixed", sp]]])
+        if k == 0 and rng.random() < 0.3:
+            ch = [["pass"]] + ch
+        comps.append({"kind": "T", "start": 0, "steps": [sp * rng.choice([1, 2, 3])], "initpull": False, "nout": 0,
+                      "inputs": [{"src": [0, 0], "chain": ch, "own": True}]})
+    order = list(range(len(comps)))
+    rng.shuffle(order)
+    maxstep = max(max(c["steps"]) for c in comps)
+    return {"comps": permute(comps, order), "end": rng.choice([2, 3, 5]) * maxstep}
